@@ -33,6 +33,9 @@ type c04Case struct {
 	ConsumerDelay int64   // the consumer sleeps this long after each result
 	Faults        []int   // these requests (by order of arrival at the transport) fail with a connection error
 	ClientTimeout int64   `json:",omitempty"` // > 0: the attacker's Timeout option (ns); pacer waits may be much longer than it
+	// BadEvery > 0: every BadEvery-th target handed out cannot be turned into a request (bad escape in its URL): such a hit
+	// was released and started like any other and yields a result; it just never reaches the transport
+	BadEvery int `json:",omitempty"`
 }
 
 type c04Call struct {
@@ -110,7 +113,19 @@ func execC04(c c04Case) (out c04Outcome, err error) {
 	}
 	atk := vegeta.NewAttacker(opts...)
 	t0 := time.Now()
-	results := atk.Attack(vegeta.NewStaticTargeter(vegeta.Target{Method: "GET", URL: "http://c04.test/"}), p, time.Duration(c.Duration), "c04")
+	var drawn int
+	targeter := func(tgt *vegeta.Target) error {
+		tr.mu.Lock()
+		defer tr.mu.Unlock()
+		drawn++
+		*tgt = vegeta.Target{Method: "GET", URL: "http://c04.test/"}
+		if c.BadEvery > 0 && drawn%c.BadEvery == 0 {
+			tgt.URL = "http://c04.test/%zz"
+			tr.entries = append(tr.entries, time.Now()) // the start of a hit that will not get as far as the transport
+		}
+		return nil
+	}
+	results := atk.Attack(targeter, p, time.Duration(c.Duration), "c04")
 	var got []*vegeta.Result
 	done := make(chan struct{})
 	go func() {
@@ -325,6 +340,9 @@ func TestC04Loop(t *testing.T) {
 					c.Latency[i] = c.ClientTimeout / 2
 				}
 			}
+		}
+		if c.MaxWorkers < 255 && rapid.IntRange(0, 3).Draw(t, "badtargets") == 0 {
+			c.BadEvery = rapid.IntRange(1, 5).Draw(t, "badevery")
 		}
 		if rapid.IntRange(0, 2).Draw(t, "slowconsumer") == 0 {
 			c.ConsumerDelay = rapid.Int64Range(1, 2e9).Draw(t, "cdelay")
